@@ -279,8 +279,21 @@ pub fn gen_map_for(rng: &mut Rng, text: &str, own_name: Option<&str>) -> MapSpec
       });
     }
   }
+  let mut mappings = encode_mappings(&segs);
+  // 5 in 1000 maps: noise inside the mappings string (characters outside the
+  // base64 alphabet, mostly non-ASCII); it decodes to the same segments
+  if rng.chance(5) && !mappings.is_empty() {
+    for _ in 0..1 + rng.usize_below(3) {
+      let noise = *rng.pick(&["\u{80}", "\u{2028}", "\u{feff}", "é", "😀", "\u{ff}", " ", "!", "\n", "\u{7f}"]);
+      let mut at = rng.usize_below(mappings.len() + 1);
+      while !mappings.is_char_boundary(at) {
+        at -= 1;
+      }
+      mappings.insert_str(at, noise);
+    }
+  }
   MapSpec {
-    mappings: encode_mappings(&segs),
+    mappings,
     sources,
     sources_content,
     names,
